@@ -27,8 +27,25 @@ func isSingleAtomPremise(premises []ast.Term) bool {
 	if len(premises) != 1 {
 		return false
 	}
-	_, ok := premises[0].(ast.Atom)
-	return ok
+	atom, ok := premises[0].(ast.Atom)
+	if !ok {
+		return false
+	}
+	// The transform then reads the atom's facts straight from the store. That is the solution set of the body
+	// only if no argument needs unification or evaluation: a repeated variable or a function expression does.
+	seen := make(map[ast.Variable]bool)
+	for _, arg := range atom.Args {
+		switch a := arg.(type) {
+		case ast.Variable:
+			if seen[a] {
+				return false
+			}
+			seen[a] = true
+		case ast.ApplyFn:
+			return false
+		}
+	}
+	return true
 }
 
 // Rewrite transforms each clause of a given layer (stratum) of a program to another one where
